@@ -283,7 +283,16 @@ func c34Gen(r *vu.Rng, i int) []string {
 		ops = append(ops,
 			fmt.Sprintf("hplan %s %d", c34GenReads(r), hstop),
 			c34GenResp(r),
-			fmt.Sprintf("cplan %s %d", c34GenReads(r), -1),
+			fmt.Sprintf("cplan %s %d", c34GenReads(r), -1))
+		if r.Chance(1, 5) {
+			// interim (1xx) responses before the final one, also a 100 nobody asked for
+			var codes []string
+			for i := r.Range(1, 3); i > 0; i-- {
+				codes = append(codes, []string{"100", "100", "103", "102"}[r.Intn(4)])
+			}
+			ops = append(ops, "interim "+strings.Join(codes, "."))
+		}
+		ops = append(ops,
 			fmt.Sprintf("req %s %s %d %d %s %s %s", m, path, cl, nobody, c34GenHL(r, "h", 4), chunks, tr),
 			"wres", "cres")
 	case k < 8: // raw client -> real server
